@@ -454,8 +454,8 @@ func (fv *FV) specSetOps(env *Env, c *SCall) (Term, bool) {
 			fv.sfail("emptyset(m)")
 		}
 		m := fv.spec(env, c.Args[0])
-		if st, ok := m.T.(*specType); ok && st.key != nil {
-			return Term{S: fv.emptyDom(fv.sortOf(st.key)), Sort: m.Sort, T: m.T}, true
+		if is, es := arraySorts(m.Sort); es == sBool && is != "" {
+			return Term{S: fv.emptyDom(is), Sort: m.Sort, T: m.T}, true
 		}
 		fv.sfail("emptyset() needs a set-valued argument")
 	case "setadd":
@@ -466,6 +466,9 @@ func (fv *FV) specSetOps(env *Env, c *SCall) (Term, bool) {
 		x := fv.spec(env, c.Args[1])
 		is, _ := arraySorts(a.Sort)
 		x, _ = fv.coerce(x, Term{Sort: is})
+		if !containsQ(a.S) && !containsQ(x.S) {
+			fv.axioms = append(fv.axioms, eq(fv.cardOf(is, sto(a.S, x.S, "true")), app("+", fv.cardOf(is, a.S), ite(sel(a.S, x.S), "0", "1"))))
+		}
 		return Term{S: sto(a.S, x.S, "true"), Sort: a.Sort, T: a.T}, true
 	case "setdel":
 		if len(c.Args) != 2 {
@@ -475,6 +478,9 @@ func (fv *FV) specSetOps(env *Env, c *SCall) (Term, bool) {
 		x := fv.spec(env, c.Args[1])
 		is, _ := arraySorts(a.Sort)
 		x, _ = fv.coerce(x, Term{Sort: is})
+		if !containsQ(a.S) && !containsQ(x.S) {
+			fv.axioms = append(fv.axioms, eq(fv.cardOf(is, sto(a.S, x.S, "false")), app("-", fv.cardOf(is, a.S), ite(sel(a.S, x.S), "1", "0"))))
+		}
 		return Term{S: sto(a.S, x.S, "false"), Sort: a.Sort, T: a.T}, true
 	case "card":
 		if len(c.Args) != 1 {
